@@ -2,3 +2,4 @@ import ReplicatModel.Basic
 import ReplicatModel.Generated
 import ReplicatModel.Chunker
 import ReplicatModel.Clmul
+import ReplicatModel.RateLimit
